@@ -14,6 +14,7 @@ import (
 	"sort"
 	"strconv"
 	"strings"
+	"sync"
 	"time"
 
 	"verifharness/internal/gen"
@@ -61,9 +62,12 @@ func callOf(q string, fn *gen.Func) string {
 }
 
 // driverSrc renders cmd/zdrv/main.go for one revision.
-func driverSrc(p *proj.Project, old bool, ending behEnding, k int) string {
+func driverSrc(p *proj.Project, old bool, ending behEnding, k int, concurrent bool) string {
 	var b strings.Builder
 	b.WriteString("package main\n\nimport (\n\t\"fmt\"\n\t\"os\"\n")
+	if concurrent {
+		b.WriteString("\t\"sync\"\n")
+	}
 	var libs []*proj.Pkg
 	for _, pk := range p.Pkgs {
 		if !pk.IsMain {
@@ -71,26 +75,36 @@ func driverSrc(p *proj.Project, old bool, ending behEnding, k int) string {
 		}
 	}
 	for _, pk := range libs {
-		fmt.Fprintf(&b, "\t%s %q\n", pk.Name, proj.Module+"/"+pk.Dir)
+		fmt.Fprintf(&b, "\t%s %q\n", pk.Name, strings.TrimSuffix(proj.Module+"/"+pk.Dir, "/."))
 	}
 	b.WriteString(")\n\nvar _ = os.Args\n\nfunc main() {\n\ttotal := len(os.Args)\n")
-	for _, pk := range libs {
-		for _, f := range pk.Files {
-			if old && f.Status == gen.Added {
-				continue
-			}
-			for _, fn := range f.Funcs {
-				if old && fn.Status == gen.Added {
+	calls := func(ind string) {
+		for _, pk := range libs {
+			for _, f := range pk.Files {
+				if old && f.Status == gen.Added {
 					continue
 				}
-				if c := callOf(pk.Name, fn); c != "" {
-					fmt.Fprintf(&b, "\t%s\n", c)
+				for _, fn := range f.Funcs {
+					if old && fn.Status == gen.Added {
+						continue
+					}
+					if c := callOf(pk.Name, fn); c != "" {
+						fmt.Fprintf(&b, "%s%s\n", ind, c)
+					}
 				}
 			}
+			if len(pk.Files[0].Calls) > 0 {
+				fmt.Fprintf(&b, "%stotal += %s.Deps()\n", ind, pk.Name)
+			}
 		}
-		if len(pk.Files[0].Calls) > 0 {
-			fmt.Fprintf(&b, "\ttotal += %s.Deps()\n", pk.Name)
-		}
+	}
+	calls("\t")
+	if concurrent {
+		// race: true configurations: the same tracking points are reached from four goroutines
+		// with no happens-before edge between them (the functions share no unsynchronised state)
+		b.WriteString("\tvar wgc sync.WaitGroup\n\tpart := make([]int, 4)\n\tfor g := 0; g < 4; g++ {\n\t\twgc.Add(1)\n\t\tgo func(g int) {\n\t\t\tdefer wgc.Done()\n\t\t\ttotal := g\n")
+		calls("\t\t\t")
+		b.WriteString("\t\t\tpart[g] = total\n\t\t}(g)\n\t}\n\twgc.Wait()\n\tfor _, v := range part {\n\t\ttotal += v\n\t}\n")
 	}
 	b.WriteString("\tnotes := 0\n")
 	for _, pk := range libs {
@@ -112,12 +126,13 @@ func driverSrc(p *proj.Project, old bool, ending behEnding, k int) string {
 const probeSrc = `package %s
 
 import (
+	"encoding/json"
 	"fmt"
+	"net/http/httptest"
 	"os"
 	"sort"
 	"strings"
 	"sync"
-	"sync/atomic"
 )
 
 var (
@@ -137,10 +152,26 @@ func VerifHit(n int) {
 func VerifDump() {
 	verifOnce.Do(func() {
 		var cov, hit []string
-		for i := 1; i < TRACK_ID_END; i++ {
-			if v := atomic.LoadUint32(&trackIdStatus[i]); v > 0 {
-				cov = append(cov, fmt.Sprintf("%%d:%%d", i, v))
+		// what the program reports as covered: the /track endpoint over all components
+		rec := httptest.NewRecorder()
+		trackHandler(rec, httptest.NewRequest("GET", "/track?order=2", nil))
+		var res Results
+		_ = json.Unmarshal(rec.Body.Bytes(), &res)
+		covm := map[int]uint32{}
+		for _, cr := range res.Results {
+			for _, it := range cr.Metrics.Items {
+				if it.Count > 0 {
+					covm[it.ID] = it.Count
+				}
 			}
+		}
+		var cks []int
+		for k := range covm {
+			cks = append(cks, k)
+		}
+		sort.Ints(cks)
+		for _, k := range cks {
+			cov = append(cov, fmt.Sprintf("%%d:%%d", k, covm[k]))
 		}
 		verifMu.Lock()
 		var ks []int
@@ -199,14 +230,33 @@ func runBin(path string, args []string, env []string) binRun {
 }
 
 // buildMains builds every main package of the module in dir into outDir (one binary per package).
-func buildMains(dir, outDir string) (bool, string) {
+func buildMains(dir, outDir string, race bool) (bool, string) {
 	os.MkdirAll(outDir, 0755)
-	cmd := exec.Command("go", "build", "-o", outDir+string(filepath.Separator), "./...")
+	args := []string{"build"}
+	cgo := "CGO_ENABLED=0"
+	if race {
+		args = append(args, "-race")
+		cgo = "CGO_ENABLED=1"
+	}
+	cmd := exec.Command("go", append(args, "-o", outDir+string(filepath.Separator), "./...")...)
 	cmd.Dir = dir
-	cmd.Env = append(os.Environ(), "GOFLAGS=-mod=mod", "GOPROXY=off", "GOSUMDB=off", "GOTOOLCHAIN=local", "CGO_ENABLED=0")
+	cmd.Env = append(os.Environ(), "GOFLAGS=-mod=mod", "GOPROXY=off", "GOSUMDB=off", "GOTOOLCHAIN=local", cgo)
 	out, err := cmd.CombinedOutput()
 	return err == nil, string(out)
 }
+
+// raceDetectorWorks: can this machine build with -race (needs cgo and the race runtime)?
+var raceDetectorWorks = sync.OnceValue(func() bool {
+	d, err := os.MkdirTemp("", "vh-race-probe")
+	if err != nil {
+		return false
+	}
+	defer os.RemoveAll(d)
+	os.WriteFile(filepath.Join(d, "go.mod"), []byte("module raceprobe\n\ngo 1.23\n"), 0644)
+	os.WriteFile(filepath.Join(d, "main.go"), []byte("package main\n\nfunc main() {}\n"), 0644)
+	ok, _ := buildMains(d, filepath.Join(d, "bin"), true)
+	return ok
+})
 
 func parseDump(stderr string) (n int, cov, hit map[int]int, ok bool) {
 	m := regexp.MustCompile(`VERIF-COVERED (\d+) \[([^\]]*)\]\nVERIF-HITS \[([^\]]*)\]`).FindStringSubmatch(stderr)
@@ -315,8 +365,9 @@ func e2eBehaviour(c *e2eCtx) error {
 		p := proj.Generate(r, proj.Opts{InScope: true, RootMain: r.Intn(3) == 0, Mains: 1 + r.Intn(2), Libs: 2 + r.Intn(3), ChangeP: 0.35})
 		ending := behEnding(i % 3)
 		code := 1 + r.Intn(100)
-		p.ExtraOld["cmd/zdrv/main.go"] = driverSrc(p, true, ending, code)
-		p.ExtraNew["cmd/zdrv/main.go"] = driverSrc(p, false, ending, code)
+		raceOn := (i/8)%2 == 0
+		p.ExtraOld["cmd/zdrv/main.go"] = driverSrc(p, true, ending, code, raceOn)
+		p.ExtraNew["cmd/zdrv/main.go"] = driverSrc(p, false, ending, code, raceOn)
 		oldTree, newTree := p.Files(true), p.Files(false)
 		oldRev, err := proj.InitRepo(src, oldTree, 1700000000)
 		if err == nil {
@@ -329,7 +380,7 @@ func e2eBehaviour(c *e2eCtx) error {
 		cfg := proj.DefaultConfig(oldRev)
 		cfg.Granularity = grans[i%4]
 		cfg.DataType = []string{"bool", "count"}[(i/4)%2]
-		cfg.Race = (i/8)%2 == 0
+		cfg.Race = raceOn
 		cfg.Precision = pick(r, []int{1, 2, 3})
 		if r.Intn(3) == 0 {
 			cfg.Alias, cfg.PkgName, cfg.PkgPath = "cov", "covpkg", "internal/cov"
@@ -351,7 +402,13 @@ func e2eBehaviour(c *e2eCtx) error {
 
 		// ---- original binaries
 		binO, binI, binP := filepath.Join(dir, "orig"), filepath.Join(dir, "instr"), filepath.Join(dir, "probe")
-		if ok, out := buildMains(src, binO); !ok {
+		// race: true configurations are observed in race-detector builds (all three binaries), so
+		// that a tracking call that races with itself shows as a report / exit status 66
+		rb := cfg.Race && raceDetectorWorks()
+		if rb {
+			c.count("race-detector-build")
+		}
+		if ok, out := buildMains(src, binO, rb); !ok {
 			c.violate("", "harness: generated project does not build: "+firstLine(out, ""), rp(map[string]any{"build": tail(out, 1500)}))
 			return
 		}
@@ -362,7 +419,7 @@ func e2eBehaviour(c *e2eCtx) error {
 			c.violate("C01", "goat track failed: "+lastLine(run.Stderr), rp(map[string]any{"stderr": tail(run.Stderr, 1500)}))
 			return
 		}
-		if ok, out := buildMains(src, binI); !ok {
+		if ok, out := buildMains(src, binI, rb); !ok {
 			c.count("instrumented-build-failed(C01)")
 			c.violate("C01", "instrumented project does not build: "+firstLine(out, ""), rp(map[string]any{"build": tail(out, 1500)}))
 			return
@@ -382,7 +439,7 @@ func e2eBehaviour(c *e2eCtx) error {
 		}
 		probeOK := true
 		if calls > 0 {
-			if ok, out := buildMains(src, binP); !ok {
+			if ok, out := buildMains(src, binP, rb); !ok {
 				probeOK = false
 				c.violate("", "harness: probe build failed: "+firstLine(out, ""), rp(map[string]any{"build": tail(out, 1500)}))
 			}
@@ -412,12 +469,21 @@ func e2eBehaviour(c *e2eCtx) error {
 				c.count("original-nondeterministic(skipped)")
 				continue
 			}
+			if rb && (strings.Contains(o1.stderr, "WARNING: DATA RACE") || strings.Contains(o2.stderr, "WARNING: DATA RACE")) {
+				c.count("original-has-a-data-race(skipped)")
+				continue
+			}
 			c.count(fmt.Sprintf("exit-status:%d", o1.exit))
 			in := runBin(filepath.Join(binI, name), args, env)
 			what := func(kind string, r binRun) map[string]any {
 				return rp(map[string]any{"binary": name, "main_file": mainFile, "args": args, "env": env, "build": kind,
 					"original_stdout": tail(o1.stdout, 600), "original_exit": o1.exit, "this_stdout": tail(r.stdout, 600), "this_exit": r.exit,
 					"this_stderr": tail(r.stderr, 1500), "instrumented_main": instrTree[mainFile]})
+			}
+			if rb && strings.Contains(in.stderr, "WARNING: DATA RACE") {
+				c.violate("C14", fmt.Sprintf("%s: race detector build, race: true: the instrumented binary reports a DATA RACE (exit %d), the original reports none (exit %d): %s (%s)",
+					name, in.exit, o1.exit, raceSignature(reRaceBlock.FindString(in.stderr)), desc), what("instrumented", in))
+				continue
 			}
 			if in.stdout != o1.stdout || in.exit != o1.exit {
 				c.violate("C14", fmt.Sprintf("%s: the instrumented binary prints %q and exits %d, the original prints %q and exits %d (%s)",
